@@ -8,7 +8,7 @@ import argparse, json, os, shutil, subprocess, sys, glob, time
 V = os.path.dirname(os.path.dirname(os.path.abspath(__file__)))
 sys.path.insert(0, V)
 from harness.props import CLAIMED
-ap = argparse.ArgumentParser(); ap.add_argument("ids", nargs="*"); ap.add_argument("--tier", default="quick")
+ap = argparse.ArgumentParser(); ap.add_argument("ids", nargs="*"); ap.add_argument("--tier", default="quick"); ap.add_argument("--new", action="store_true", help="only refactorings without a recorded result")
 a = ap.parse_args()
 rd = os.path.join(V, "seeded", "refactors")
 ids = a.ids or sorted(os.listdir(rd))
@@ -19,6 +19,8 @@ for rid in ids:
     pid = meta["property"]
     for patch in sorted(glob.glob(os.path.join(rd, rid, "refactor_*.diff"))):
         key = rid + "/" + os.path.basename(patch)
+        if a.new and key in results:
+            continue
         scratch = "/var/tmp/refrun-%s-%d" % (rid, os.getpid())
         shutil.copytree("/repo", scratch, ignore=shutil.ignore_patterns(".git", "__pycache__"))
         try:
